@@ -63,12 +63,23 @@ pub proof fn lemma_chain(e: Syn, v: Seq<Syn>, k: int)
     ensures
         sp_tree(v[k]) == sp_tree(e),
         off_inside(sp_range(if k == 0 { e } else { v[k - 1] }), sp_range(v[k])),
+        nth_parent(e, (k + 1) as nat) == Some(v[k]),
     decreases k
 {
     let prev = if k == 0 { e } else { v[k - 1] };
+    assert(nth_parent(e, 0) == Some(e));
+    assert(nth_parent(e, k as nat) == Some(prev));
+    assert(nth_parent(e, (k + 1) as nat) == Some(v[k]));
     assert(sp_parent(prev) == Some(v[k]));
     axiom_parent_contains(prev);
     if k > 0 { lemma_chain(e, v, k - 1); }
+}
+/// element i of the chain is the range of the i-th ancestor (0: the token itself)
+pub open spec fn is_ancestry(doc: &LuaDocument, token: Syn, ch: Seq<lsp_types::Range>) -> bool {
+    forall|i: nat| i < ch.len() ==> (#[trigger] nth_parent(token, i) matches Some(a) && ch[i as int] == doc_lsp_range(doc, sp_range(a)))
+}
+pub open spec fn off_is_ancestry(token: Syn, rs: Seq<TextRange>) -> bool {
+    forall|i: nat| i < rs.len() ==> (#[trigger] nth_parent(token, i) matches Some(a) && rs[i as int] == sp_range(a))
 }
 /// monotone positions: containment of text ranges carries over to their LSP ranges
 pub proof fn lemma_inside_lsp(doc: &LuaDocument, a: TextRange, b: TextRange)
@@ -85,4 +96,100 @@ pub proof fn lemma_growing_lsp(doc: &LuaDocument, s: Seq<TextRange>, k: int)
     assert forall|i: int| 0 <= k <= i && i + 1 < s.len() implies lsp_inside(#[trigger] lsp_seq(doc, s)[i], lsp_seq(doc, s)[i + 1]) by {
         lemma_inside_lsp(doc, s[i], s[i + 1]);
     }
+}
+/// one step of the outermost-first construction: wrapping the chain of rs[n-j..n) into a SelectionRange for rs[n-j-1]
+/// gives the chain of rs[n-j-1..n)
+pub proof fn lemma_sel_step(doc: &LuaDocument, rs: Seq<TextRange>, j: int, oldp: Option<Box<SelectionRange>>, newp: SelectionRange)
+    requires
+        0 <= j < rs.len(),
+        newp.range == doc_lsp_range(doc, rs[rs.len() - 1 - j]), newp.parent == oldp,
+        (j == 0) == (oldp is None),
+        oldp matches Some(p) ==> sel_ranges(*p) == lsp_seq(doc, rs.subrange(rs.len() - j, rs.len() as int)),
+    ensures
+        sel_ranges(newp) == lsp_seq(doc, rs.subrange(rs.len() - j - 1, rs.len() as int)),
+{
+    let n = rs.len() as int;
+    let now = lsp_seq(doc, rs.subrange(n - j - 1, n));
+    let before = lsp_seq(doc, rs.subrange(n - j, n));
+    match oldp {
+        None => { assert(sel_ranges(newp) =~= now); }
+        Some(p) => {
+            assert(seq![newp.range] + before =~= now);
+        }
+    }
+}
+/// the finished chain: LSP images of the text-range chain; growing where the text ranges grow; the ancestry outside
+/// descriptions
+pub proof fn lemma_sel_done(doc: &LuaDocument, token: Syn, rs: Seq<TextRange>, k: int, ch: Seq<lsp_types::Range>)
+    requires
+        sp_doc_ok(doc), off_growing_from(doc, rs, k),
+        ch == lsp_seq(doc, rs.subrange(0, rs.len() as int)),
+    ensures
+        ch.len() == rs.len(), growing_from(ch, k),
+        off_is_ancestry(token, rs) ==> is_ancestry(doc, token, ch),
+{
+    assert(rs.subrange(0, rs.len() as int) =~= rs);
+    lemma_growing_lsp(doc, rs, k);
+    if off_is_ancestry(token, rs) {
+        assert forall|i: nat| i < ch.len() implies (#[trigger] nth_parent(token, i) matches Some(a)
+            && ch[i as int] == doc_lsp_range(doc, sp_range(a))) by { }
+    }
+}
+/// invariant of the ancestor loop (kept opaque in the loop, unfolded in the three lemmas below): after `idx` ancestors
+/// were appended to the `init_len` initial ranges
+#[verifier::opaque]
+pub open spec fn chain_inv(doc: &LuaDocument, token: Syn, anc: Seq<Syn>, rs: Seq<TextRange>, k: int, idx: int, init_len: int) -> bool {
+    &&& rs.len() == init_len + idx
+    &&& k == (if in_description(token) { init_len } else { 0 })
+    &&& (!in_description(token) ==> init_len == 1 && off_is_ancestry(token, rs))
+    &&& (idx > 0 ==> rs.len() > 0 && rs.last() == sp_range(anc[idx - 1]))
+    &&& off_growing_from(doc, rs, k)
+}
+pub proof fn lemma_anc_init(doc: &LuaDocument, token: Syn, anc: Seq<Syn>, rs: Seq<TextRange>)
+    requires
+        sp_tree(token) == sp_doc_id(doc),
+        forall|i: int| 0 <= i < rs.len() ==> range_in_doc(doc, #[trigger] rs[i]),
+        !in_description(token) ==> rs =~= seq![sp_range(token)],
+    ensures chain_inv(doc, token, anc, rs, if in_description(token) { rs.len() as int } else { 0 }, 0, rs.len() as int),
+{
+    reveal(chain_inv);
+    axiom_range_in_doc(doc, token);
+    assert(nth_parent(token, 0) == Some(token));
+}
+pub proof fn lemma_anc_step(doc: &LuaDocument, token: Syn, anc: Seq<Syn>, rs: Seq<TextRange>, k: int, idx: int, init_len: int)
+    requires
+        sp_tree(token) == sp_doc_id(doc), ancestor_chain(token, anc), 0 <= idx < anc.len(),
+        chain_inv(doc, token, anc, rs, k, idx, init_len),
+    ensures chain_inv(doc, token, anc, rs.push(sp_range(anc[idx])), k, idx + 1, init_len),
+{
+    reveal(chain_inv);
+    lemma_chain(token, anc, idx);
+    axiom_range_in_doc(doc, anc[idx]);
+    let rs2 = rs.push(sp_range(anc[idx]));
+    assert forall|i: int| 0 <= i < rs2.len() implies range_in_doc(doc, #[trigger] rs2[i]) by {
+        if i < rs.len() { assert(rs2[i] == rs[i]); }
+    }
+    assert forall|i: int| 0 <= k <= i && i + 1 < rs2.len() implies off_inside(#[trigger] rs2[i], rs2[i + 1]) by {
+        if i + 1 < rs.len() {
+            assert(rs2[i] == rs[i] && rs2[i + 1] == rs[i + 1]);
+        } else {
+            // the link to the ancestor just appended: its predecessor is the previous ancestor, or (outside a description)
+            // the token itself
+            if idx == 0 { assert(!in_description(token)); assert(nth_parent(token, 0) == Some(token)); assert(rs[0] == sp_range(token)); }
+        }
+    }
+    if !in_description(token) {
+        assert forall|i: nat| i < rs2.len() implies (#[trigger] nth_parent(token, i) matches Some(a) && rs2[i as int] == sp_range(a)) by {
+            if i < rs.len() { assert(rs2[i as int] == rs[i as int]); }
+        }
+    }
+}
+pub proof fn lemma_anc_done(doc: &LuaDocument, token: Syn, anc: Seq<Syn>, rs: Seq<TextRange>, k: int, init_len: int)
+    requires ancestor_chain(token, anc), chain_inv(doc, token, anc, rs, k, anc.len() as int, init_len),
+    ensures
+        rs.len() == init_len + sp_depth(token), off_growing_from(doc, rs, k),
+        k == (if in_description(token) { init_len } else { 0 }),
+        !in_description(token) ==> init_len == 1 && off_is_ancestry(token, rs),
+{
+    reveal(chain_inv);
 }
